@@ -151,6 +151,11 @@ func execProc(ctx context.Context, r *ldriver.Run, sid, g int, op ProcOp) (ret R
 			ret.Heads, ret.HasH = ids(r.Reg, l.Heads()), true
 		case "RawHeads":
 			ret.Heads, ret.HasH = ids(r.Reg, l.RawHeads()), true
+		case "RawHeadsHeld":
+			// the caller keeps what it was handed and reads it only later (a yield point of the harness in between)
+			h := l.RawHeads()
+			yieldHere(l, "held.RawHeads")
+			ret.Heads, ret.HasH = ids(r.Reg, h), true
 		case "GetEntries":
 			ret.Ents, ret.HasE = ids(r.Reg, l.GetEntries()), true
 		case "ToSnapshot":
